@@ -38,23 +38,26 @@ def run_inject(c):
 _bhe = None
 
 
-def parts():
-    global _bhe
-    if _bhe is None:
+_parts = {}
+
+
+def parts(grout_rhocp=3901000.0):
+    """one borehole + short-time model per grout heat capacity (same soil, height and R_b*: only the short-time response differs)"""
+    if grout_rhocp not in _parts:
         from ghedesigner.borehole import GHEBorehole
         from ghedesigner.borehole_heat_exchangers import SingleUTube
         from ghedesigner.media import GHEFluid, Grout, Pipe, Soil
         from ghedesigner.radial_numerical_borehole import RadialNumericalBH
         pipe = Pipe(Pipe.place_pipes(0.01856, 0.02108, 1), 0.01702, 0.02108, 0.01856, 1e-6, 0.4, 1542000.0)
         soil = Soil(2.0, 2343493.0, 18.3)
-        grout = Grout(1.0, 3901000.0)
+        grout = Grout(1.0, grout_rhocp)
         fluid = GHEFluid("water", 0.0)
         b = GHEBorehole(100.0, 2.0, 0.075, 0.0, 0.0)
         bhe = SingleUTube(0.5, fluid, b, pipe, grout, soil)
         rn = RadialNumericalBH(bhe)
         rn.calc_sts_g_functions(bhe)
-        _bhe = (bhe, rn)
-    return _bhe
+        _parts[grout_rhocp] = (bhe, rn)
+    return _parts[grout_rhocp]
 
 
 def run_profile(c):
@@ -63,7 +66,7 @@ def run_profile(c):
     loads = c["loads"] if isinstance(c["loads"], list) else e2e.synthetic_loads(c["loads"])
     for (h0, v) in c.get("spikes", []):
         loads[h0] = v
-    bhe, rn = parts()
+    bhe, rn = parts(c.get("grout_rhocp", 3901000.0))
     sp = SimulationParameters(1, c["months"], 35, 5, 135, 60)
     import warnings as w
     with w.catch_warnings(record=True) as ws:
